@@ -51,6 +51,7 @@ type TimingObs struct {
 	Done   []DoneRec `json:"done"` // work-group completion messages seen on the CU's dispatch port
 	Out    []uint32 `json:"out,omitempty"`
 	Cycles int      `json:"cycles"`
+	Refused int     `json:"refused"` // Send attempts of completion messages that the dispatch port refused
 }
 
 // DoneRec is one WGCompletionMsg: work-group and the cycle it was sent in.
@@ -75,12 +76,15 @@ func inputData(n int) []uint32 {
 }
 
 // launch runs the kernel through the driver; returns false on timeout.
-func launch(d *driver.Driver, c Case, ws []uint32, timeoutMs int, stop func()) (ok bool, out []uint32) {
+func launch(d *driver.Driver, c Case, ws []uint32, timeoutMs int, v5 bool, stop func()) (ok bool, out []uint32) {
 	n := 64 * c.NWf * c.NWg
 	done := make(chan []uint32, 1)
 	go func() {
 		ctx := d.Init()
 		co := codeObject(ws, ldsBytesFor(c))
+		if v5 {
+			co.Version = insts.CodeObjectV5
+		}
 		gIn := d.AllocateMemory(ctx, uint64(4*(n+64)))
 		gOut := d.AllocateMemory(ctx, uint64(4*n))
 		d.MemCopyH2D(ctx, gIn, inputData(n+64))
@@ -341,6 +345,30 @@ func (h portHook) Func(ctx sim.HookCtx) {
 	}
 }
 
+// refusingPort stands in for the CU's dispatch port: it refuses the first k
+// Send attempts of every work-group completion message (as a port whose
+// outgoing buffer is full does) and forwards everything else to the real port.
+type refusingPort struct {
+	sim.Port
+	k       int
+	tries   map[string]int
+	refused *int
+	wake    func() // what NotifyPortFree does when a full port drains: tick the component again
+}
+
+func (p *refusingPort) Send(msg sim.Msg) *sim.SendError {
+	if m, ok := msg.(*protocol.WGCompletionMsg); ok && len(m.RspTo) > 0 {
+		id := m.RspTo[0]
+		if p.tries[id] < p.k {
+			p.tries[id]++
+			*p.refused++
+			p.wake()
+			return sim.NewSendError()
+		}
+	}
+	return p.Port.Send(msg)
+}
+
 func only(p string) bool {
 	o := os.Getenv("C14_ONLY")
 	return o == "" || o == p
@@ -351,7 +379,11 @@ func runTiming(c Case, ws []uint32, timeoutMs int) *TimingObs {
 		return nil
 	}
 	s := simulation.MakeBuilder().WithoutMonitoring().Build()
-	timingconfig.MakeBuilder().WithSimulation(s).WithNumGPUs(1).VerifBuildWithShape(1, 1)
+	if c.GPU == "mi300a" {
+		timingconfig.MakeBuilder().WithSimulation(s).WithNumGPUs(1).WithGPUType("mi300a").VerifBuildShapeOf(1, 1)
+	} else {
+		timingconfig.MakeBuilder().WithSimulation(s).WithNumGPUs(1).VerifBuildWithShape(1, 1)
+	}
 	obs := &TimingObs{WgOf: []int{}, IdxOf: []int{}, Evs: []Ev{}, Done: []DoneRec{}}
 	var theCU *cu.ComputeUnit
 	for _, comp := range s.Components() {
@@ -372,9 +404,12 @@ func runTiming(c Case, ws []uint32, timeoutMs int) *TimingObs {
 	tracing.CollectTrace(theCU, r)
 	s.GetEngine().AcceptHook(r)
 	theCU.ToACE.AcceptHook(portHook{r})
+	if c.Refuse > 0 {
+		theCU.ToACE = &refusingPort{Port: theCU.ToACE, k: c.Refuse, tries: map[string]int{}, refused: &obs.Refused, wake: theCU.TickLater}
+	}
 	d := s.GetComponentByName("Driver").(*driver.Driver)
 	d.Run()
-	ok, out := launch(d, c, ws, timeoutMs, func() { r.stopped = true })
+	ok, out := launch(d, c, ws, timeoutMs, c.GPU == "mi300a", func() { r.stopped = true })
 	obs.Cycles = r.cycle
 	if !ok {
 		r.stopped = true
@@ -432,7 +467,15 @@ func runEmu(c Case, ws []uint32, timeoutMs int) *EmuObs {
 		return nil
 	}
 	s := simulation.MakeBuilder().WithoutMonitoring().Build()
-	emusystem.MakeBuilder().WithSimulation(s).WithNumGPUs(1).WithArchitecture(arch.GCN3).Build()
+	// The programs are GCN3-encoded. The scalar/VOP1 subset used by programs
+	// without memory instructions is encoded identically for CDNA3, so those
+	// run on the CDNA3 emulator when the timing side is an MI300A; programs
+	// with memory instructions keep the GCN3 emulator as reference.
+	a := arch.GCN3
+	if c.GPU == "mi300a" && !usesMem(c.Prog) {
+		a = arch.CDNA3
+	}
+	emusystem.MakeBuilder().WithSimulation(s).WithNumGPUs(1).WithArchitecture(a).Build()
 	obs := &EmuObs{Evs: []EmuEv{}}
 	for _, comp := range s.Components() {
 		if x, ok := comp.(*emu.ComputeUnit); ok {
@@ -441,7 +484,7 @@ func runEmu(c Case, ws []uint32, timeoutMs int) *EmuObs {
 	}
 	d := s.GetComponentByName("Driver").(*driver.Driver)
 	d.Run()
-	ok, out := launch(d, c, ws, timeoutMs, nil)
+	ok, out := launch(d, c, ws, timeoutMs, a == arch.CDNA3, nil)
 	if !ok {
 		obs.Result = "hang"
 		return obs
